@@ -85,8 +85,11 @@ CHECKS["C22"] = _bounded(
   "Run-time contract on every column type's convert(): never raises, result is of the type / a "
   "str / the unchanged error object, and convert(convert(v)) == convert(v); 18 type instances x "
   "446-value adversarial pool (complete) + seeded random values.",
-  "bounded; the deductive totality/result-type obligations planned in DESIGN.md are not built "
-  "yet; known findings listed in known_findings.d/C22.json", "5/C22")
+  "bounded; deductive part: BaseColumnType.convert and safe_repr never raise and return the "
+  "error object / do_convert's result / a str, for every type and value (exception flow); "
+  "known findings listed in known_findings.d/C22.json", "5/C22")
+CHECKS["C22"]["engine"] = "pysym+rtc"
+CHECKS["C22"]["technique"] = "deductive exception-flow obligations on convert/safe_repr (own AST->SMT VC generator) + bounded run-time contracts per type"
 CHECKS["C24"] = _bounded(
   "Run-time contract on objtypes.encode_object/decode_object over the value pool (marshal.dumps "
   "accepts, decode/encode fixpoint) and on replies sent through a real sandbox.Sandbox pipe by "
@@ -117,7 +120,11 @@ CHECKS["C40"] = _bounded(
   "written from the documented node table agrees with Python eval (with $x as rec.x) on all "
   "parenthesised expressions to depth 3 over the supported operators; unsupported syntax raises "
   "SyntaxError.",
-  "bounded; the structural-induction proof planned in DESIGN.md is not built yet", "5/C40")
+  "bounded; the deductive part (structural induction over 9 node classes: each real visit_ "
+  "method returns the documented table row, unsupported operators raise SyntaxError, dispatch "
+  "totality by reflection over the ast module) covers shapes, not evaluation", "5/C40")
+CHECKS["C40"]["engine"] = "pysym+rtc"
+CHECKS["C40"]["technique"] = "deductive shape obligations per AST node class (own AST->SMT VC generator) + bounded differential evaluation"
 
 CHECKS["C34"] = _bounded(
   "Run-time contract on the real moment.py functions for each of the bundled zones: "
